@@ -16,6 +16,16 @@ WORK = os.path.join(VERIF, "work")
 EVID = os.path.join(VERIF, "evidence")
 REPLAYS = os.path.join(VERIF, "replays")
 FINDINGS = os.path.join(VERIF, "findings")
+# development aid (tools/lab.py): run the same checks against a scratch copy of the repository with a change
+# applied, without touching /repo and without overwriting this tree's evidence.  Never set by registered commands.
+LAB = os.environ.get("VERIF_LAB")
+if LAB:
+    HARNESS = os.path.join(LAB, "harness")
+    WORK = os.path.join(LAB, "out", "work")
+    EVID = os.path.join(LAB, "out", "evidence")
+    REPLAYS = os.path.join(LAB, "out", "replays")
+    for _d in (WORK, EVID, REPLAYS):
+        os.makedirs(_d, exist_ok=True)
 BIN = os.path.join(HARNESS, "target", "debug", "rqconf")
 TLA_JAR = "/opt/veriftools/tla/tla2tools.jar:/opt/veriftools/tla/CommunityModules-deps.jar"
 
